@@ -46,7 +46,7 @@ S5_COMPONENTS = {
              "dom<->sub Append / pending-ETX / manifest calls through an in-process CoreBackend adapter"],
     "stub": ["libp2p/gossipsub (harness queue; blocks delivered zone, region, prime)", "hierarchical coordinator (harness picks heads on one line and calls GeneratePendingHeader/MakeFullPendingHeader)",
              "external miner (harness searches nonces from a drawn start)", "node tickers (frozen synctest clock; worker refresh invoked through overlay accessor VerifFillPending)",
-             "storage engine: SimDisk wrapper (location, write-op log, injected batch errors) over memorydb", "RPC/stats/telemetry/freezer not started"],
+             "storage engine: SimDisk wrapper (location, write-op log, injected batch errors) over memorydb; C01/C06/C10 draw memorydb, leveldb or pebble (real files in a scratch dir) for the zone database", "RPC/stats/telemetry/freezer not started"],
 }
 S5_RULE = ("one evaluation = one seeded run of a whole node (prime+region+zone cores) inside a synctest bubble: drawn node configuration (address index on/off, miner preference, lockup byte), "
            "optional fixed prologue (3 prime blocks, 4 Quai->Qi conversions, 13 blocks) and a drawn tape of <=60 ops: mine(order wanted, coinbase ledger, nonce start) / Quai transfer / Quai->Qi conversion / "
@@ -154,5 +154,49 @@ REG.update({
         "components": S5_COMPONENTS,
         "assumptions": ["agreement of all address constructors/decoders on all 2^160 addresses is a pure-function claim and is not decided", "CREATE/CREATE2 address scoping is not yet exercised in this harness (no contract deployment op)",
                         "membership is probed for candidate addresses (the state trie is keyed by hashes; preimages are not recorded)"],
+    },
+    "C01": {
+        "level": "exploration",
+        "tests": [{"pkg": "./chainsim", "run": "TestC01", "quick": 400, "thorough": 30000, "chunk": 25}],
+        "rule": S5_RULE + ("The zone database engine (memorydb / leveldb / pebble on a scratch directory) is drawn per run. Oracle 1 (utxo-model), for every block the node accepts as head: with the stored UTXO set before and after the block, every Qi transaction's inputs are distinct, unspent on this chain "
+                 "(outputs created earlier in the block allowed), unlocked, owned by the key that the harness itself verifies the (MuSig2-aggregated) Schnorr signature against, outputs <= inputs; everything that disappeared was spent or trimmable, everything that appeared is a transaction output or was minted by an inbound ETX of the block for no more than its value. "
+                 "Oracle 2 (direct-verdict), every third head: the validator's Qi path core.ProcessQiTx is driven with adversarial transactions over the live UTXO set through a batch of the drawn engine "
+                 "(same outpoint twice in one tx, same outpoint in two txs of one block, spend of an output created earlier in the block, locked input, non-owner key, outputs > inputs, honest single-key and two-input MuSig2 spends) and its accept/reject verdict must equal the model's."),
+        "expect_probes": ["qi_tx_in_accepted_block", "qi_minted_by_inbound_etx", "qi_adversarial.second-tx-same-outpoint-in-block", "qi_adversarial.dup-outpoint-in-one-tx", "qi_adversarial.locked-input", "qi_adversarial.two-input-musig-honest", "reorg"],
+        "components": S5_COMPONENTS,
+        "assumptions": ["wrong-denomination merges, wrapping and Qi->Quai conversion outputs are not generated", "fork regimes other than the default (QiWrappingChangeBlock etc.) are not varied",
+                        "a legal transaction refused for fee reasons is not judged (fee floors depend on the exchange rate)"],
+    },
+    "C12": {
+        "level": "fault_enumeration",
+        "tests": [{"pkg": "./evmsim", "run": "TestC12", "quick": 2400, "thorough": 200000, "chunk": 150}],
+        "rule": 'one evaluation = one rapid tape, executed as ~17 transaction passes: 1..5 contracts of 1..7 actions each compiled by the harness assembler into a call DAG (SSTORE/SLOAD/TSTORE/LOG/MSTORE/value transfer/SELFDESTRUCT/ETX/CONVERT/plain CALL leaving the chain scope/lockup precompile/other precompiles/CALL,CALLCODE,DELEGATECALL,STATICCALL with drawn gas/CREATE,CREATE2/REVERT/INVALID/RETURN), a drawn transaction kind (call, create, inbound ETX, to an external or Qi address, to the lockup precompile, EOA self-destruct, transfer), prime-terminus and block numbers on both sides of each fork, state size, fee, ETX eligibility mask, lockup records on disk or in the batch, access-list enforcement, and the block batch backend (memorydb / leveldb / pebble). Fault plan: one ample-gas pass records every interpreter step; then the gas limit is cut at every depth-1 step boundary (all if <=40, else a drawn subset) plus drawn fractions, and gas is injected away at inner-frame steps (all if <=24) - every cut is one pass through the real core.ApplyTransaction. ' + ("A quarter of the runs are direct StateDB mode: tapes of 21 mutation kinds over 6 addresses / 4 slots with Snapshot/RevertToSnapshot nested up to 6 deep, compared getter by getter with a deep-copy model after every revert, plus (before the seeded part of every process) the exhaustive enumeration of every sequence of <=3 of 20 atoms at every (snapshot, revert) placement (49 220 cases). "
+                 "Oracles: frame-digest (world digest - accounts, slots, transient slots, suicide marks, size counters, refund, logs, access list, pending ETXs, CoinbasesDeleted, batch-visible lockup records - at frame entry == after its failure), failed-tx-root, final-storage-model, direct-digest, direct-root. "
+                 "non-trivial (bytecode) = depth >=2, >=8 steps and a frame failure or an outcome-changing cut; (direct) >=8 ops of >=4 kinds, nesting >=3, >=1 revert; distinct = trace digest."),
+        "expect_probes": ["oog_cut", "oog_injected_inner_frame", "etx_emitted_then_reverted", "lockup_claim_in_reverted_frame", "selfdestruct_then_reverted", "create_then_reverted", "inner_failure_outer_success", "depth3plus", "exhaustive_cases"],
+        "components": {"real": ["core.ApplyTransaction and everything below it (state transition, gas purchase/refund, EVM interpreter, all call kinds, ETX/CONVERT opcodes, lockup precompile, journal, Finalize, UndoCoinbasesDeleted, receipts)", "state.StateDB", "rawdb lockup accessors", "block batch on memorydb/leveldb/pebble with SetPending"],
+                       "stub": ["ChainContext (12-method stub: parent header as prime block, ETX eligibility from a drawn mask)", "headers built with types.EmptyWorkObject"]},
+        "assumptions": ["ETX and CONVERT are not call frames: their failure exits are judged under C05", "a failed CREATE keeps the creator's nonce increment (belongs to the creator's frame)", "pending outbound ETXs have no journaled StateDB API: covered in bytecode mode through evm.ETXCache only",
+                        "bytecode is sampled from a grammar, not all programs"],
+    },
+    "C05": {
+        "level": "fault_enumeration",
+        "tests": [{"pkg": "./evmsim", "run": "TestC05", "quick": 2400, "thorough": 200000, "chunk": 150}],
+        "rule": 'one evaluation = one rapid tape, executed as ~17 transaction passes: 1..5 contracts of 1..7 actions each compiled by the harness assembler into a call DAG (SSTORE/SLOAD/TSTORE/LOG/MSTORE/value transfer/SELFDESTRUCT/ETX/CONVERT/plain CALL leaving the chain scope/lockup precompile/other precompiles/CALL,CALLCODE,DELEGATECALL,STATICCALL with drawn gas/CREATE,CREATE2/REVERT/INVALID/RETURN), a drawn transaction kind (call, create, inbound ETX, to an external or Qi address, to the lockup precompile, EOA self-destruct, transfer), prime-terminus and block numbers on both sides of each fork, state size, fee, ETX eligibility mask, lockup records on disk or in the batch, access-list enforcement, and the block batch backend (memorydb / leveldb / pebble). Fault plan: one ample-gas pass records every interpreter step; then the gas limit is cut at every depth-1 step boundary (all if <=40, else a drawn subset) plus drawn fractions, and gas is injected away at inner-frame steps (all if <=24) - every cut is one pass through the real core.ApplyTransaction. ' + ("Oracles: op-atomicity - for every ETX / CONVERT / out-of-scope CALL / lockup-precompile operation: status word present and (status==1 <=> debit == value + prepaid fee and exactly one new ETX at index == old length with the stated fields) or (failure <=> no debit and no ETX), stack height after the op; "
+                 "etx-list-equals-model - receipt.OutboundEtxs equals the operations recorded by completed, non-reverted frames in execution order. non-trivial = an outbound operation executed; distinct = trace digest."),
+        "expect_probes": ["oog_cut", "etx_committed", "etx_emitted_then_reverted", "etx_reverted_in_inner_frame_of_successful_tx", "lockup_claim_in_reverted_frame"],
+        "components": {"real": ["core.ApplyTransaction and below (opETX, opConvert, EVM.CreateETX, lockup precompile UnwrapQi/ClaimCoinbaseLockup, receipts)", "state.StateDB", "block batch on memorydb/leveldb/pebble"],
+                       "stub": ["ChainContext stub", "headers built with types.EmptyWorkObject"]},
+        "assumptions": ["the early 'sender not internal' exit of opETX is unreachable for a running contract and is not exercised", "programs are grammar-sampled"],
+    },
+    "C02": {
+        "level": "exploration",
+        "tests": [{"pkg": "./evmsim", "run": "TestC02", "quick": 2400, "thorough": 200000, "chunk": 150}],
+        "rule": 'one evaluation = one rapid tape, executed as ~17 transaction passes: 1..5 contracts of 1..7 actions each compiled by the harness assembler into a call DAG (SSTORE/SLOAD/TSTORE/LOG/MSTORE/value transfer/SELFDESTRUCT/ETX/CONVERT/plain CALL leaving the chain scope/lockup precompile/other precompiles/CALL,CALLCODE,DELEGATECALL,STATICCALL with drawn gas/CREATE,CREATE2/REVERT/INVALID/RETURN), a drawn transaction kind (call, create, inbound ETX, to an external or Qi address, to the lockup precompile, EOA self-destruct, transfer), prime-terminus and block numbers on both sides of each fork, state size, fee, ETX eligibility mask, lockup records on disk or in the batch, access-list enforcement, and the block batch backend (memorydb / leveldb / pebble). Fault plan: one ample-gas pass records every interpreter step; then the gas limit is cut at every depth-1 step boundary (all if <=40, else a drawn subset) plus drawn fractions, and gas is injected away at inner-frame steps (all if <=24) - every cut is one pass through the real core.ApplyTransaction. ' + ("Oracles over the whole committed trie: tx-conservation (sum of balances after <= before - gasUsed*price - value carried by emitted ETXs + refunds + inbound value: nothing created), value-destroyed (the lower bound, with documented burns - SELFDESTRUCT to self, value of a failed inbound ETX, residue on the zero address - counted by probes and not reported), "
+                 "gas-charge-bounds (gasUsed*price <= charge <= gasLimit*price), failed-tx-balance (a failed tx changes only the payer), negative-balance. non-trivial = value moved; distinct = trace digest."),
+        "expect_probes": ["oog_cut", "documented_burn", "etx_committed", "inner_failure_outer_success", "selfdestruct_then_reverted"],
+        "components": {"real": ["core.ApplyTransaction and below", "state.StateDB (balances summed over the committed trie)", "block batch on memorydb/leveldb/pebble"],
+                       "stub": ["ChainContext stub", "headers built with types.EmptyWorkObject"]},
+        "assumptions": ["the system-level form (sum over zones + in-flight ETXs + locked rewards) is not decided here", "programs are grammar-sampled"],
     },
 })
